@@ -296,6 +296,108 @@ def part_sequences(args):
     return n, res, {}
 
 
+def part_reentrant(args):
+    """handlers that hand another message to the same service object before they return (a handler that loops a datagram
+    back in-process, a synchronous stub): every message still gets its own reply - own ids, own sender - and the
+    replies leave innermost first.  Every sequence of two or three messages from a 14-letter alphabet; the first is
+    delivered, the next one is delivered by the first nesting handler that runs, and so on; what is left over is
+    delivered afterwards (nothing of the nesting stays behind)"""
+    own_sid, own_major, maxlen = args
+    loop = VLoop().install()
+    res = []
+    n = 0
+    addrs = [("192.0.2.77", 40000), ("192.0.2.78", 40000), ("192.0.2.77", 40001)]
+    behave = {5: 1, 6: 3, 7: 2}  # nest, then: answer / reject as malformed / return nothing
+    try:
+        alphabet = []
+        for method in (5, 6, 7):
+            for mtype in (0x00, 0x01):
+                alphabet.append((method, mtype, own_major, False))
+        alphabet += [(1, 0x00, own_major, False), (1, 0x01, own_major, False), (2, 0x00, own_major, False), (3, 0x00, own_major, False),
+                     (4, 0x00, own_major, False), (5, 0x00, own_major, True), (0x7777, 0x00, own_major, False),
+                     (5, 0x00, (own_major + 1) & 0xFF, False)]
+
+        def exp_of(f, mc):
+            m = f[1]
+            exp, handler = expected(own_sid, own_major, (f[0], behave.get(m, m)) + tuple(f[2:]), mc)
+            return exp, (m if handler is not None else None)
+
+        for ln in range(2, maxlen + 1):
+            for seq in itertools.product(range(len(alphabet)), repeat=ln):
+                if alphabet[seq[0]][0] not in behave:
+                    continue
+                s = make(loop, own_sid, own_major)
+                items = []
+                for pos, li in enumerate(seq):
+                    method, mtype, iface, mc = alphabet[li]
+                    items.append(((own_sid, method, 0x10 + pos, 0x20 + pos, iface, mtype, 0, bytes([0x61 + pos]) * 2), addrs[pos], mc))
+                queue = list(items)
+                exc = []
+
+                def nest(q=queue, s=s, exc=exc):
+                    if q:
+                        f, addr, mc = q.pop(0)
+                        try:
+                            s.datagram_received(refcodec.enc_someip(*f), addr, mc)
+                        except Exception as e:  # noqa: BLE001
+                            exc.append(type(e).__name__)
+
+                def h5(msg, addr, nest=nest):
+                    nest()
+                    return b"R" + msg.payload[:4]
+
+                def h6(msg, addr, nest=nest):
+                    nest()
+                    raise svc.MalformedMessageError("no")
+
+                def h7(msg, addr, nest=nest):
+                    nest()
+                    return None
+
+                s.register_method(5, h5)
+                s.register_method(6, h6)
+                s.register_method(7, h7)
+                while queue:
+                    nest()
+                if loop._ready or loop._scheduled:
+                    loop.settle()
+                n += 1
+                # reference
+                want = []
+                rq = list(items)
+
+                def deliver(item):
+                    f, addr, mc = item
+                    exp, handler = exp_of(f, mc)
+                    if handler in behave and rq:
+                        deliver(rq.pop(0))
+                    if exp is not None:
+                        want.append((addr, (f[0], f[1], f[2], f[3], f[4]) + exp))
+
+                while rq:
+                    deliver(rq.pop(0))
+                got = []
+                for _, _, data, addr in s.transport.sent:
+                    try:
+                        msgs, err, tail = refcodec.dec_someip_all(data)
+                    except Exception as e:  # noqa: BLE001
+                        msgs, err = [], str(e)
+                    got += [(addr, (m["service"], m["method"], m["client"], m["session"], m["iface"], m["mtype"], m["code"], m["payload"]))
+                            for m in msgs]
+                case = dict(own=(own_sid, own_major), nested=[[list(f[:7]) + [f[7].hex()], list(a), mc] for f, a, mc in items])
+                if exc:
+                    res.append(("no-exception", "nested-" + exc[0], f"datagram_received raised {exc}", case))
+                elif got != want:
+                    disc = "count" if len(got) != len(want) else ("destination" if [g[0] for g in got] != [w[0] for w in want] else "content")
+                    res.append(("reply-content" if disc == "content" else ("reply-destination" if disc == "destination" else "one-reply"),
+                                "nested-calls-" + disc, f"replies {got!r:.300} expected {want!r:.300}", case))
+                if len(res) > 40:
+                    return n, res, {}
+    finally:
+        loop.dispose()
+    return n, res, {}
+
+
 def part_long(args):
     """one datagram that holds as many requests as fit (16-byte messages up to the UDP payload limit): every one
     gets its own reply, in order"""
@@ -347,6 +449,7 @@ def check(ctx):
     out = core.pmap(part, parts, 1)
     out += core.pmap(part_history, [(own_sid, own_major)], 1)
     out += core.pmap(part_long, [(own_sid, own_major)], 1)
+    out += core.pmap(part_reentrant, [(own_sid, own_major, 4 if ctx.thorough else 3)], 1)
     out += core.pmap(part_sequences, [(own_sid, own_major, 4 if ctx.thorough else 3, ws) for ws in (False, True)], 1)
     n = sum(o[0] for o in out)
     viols = []
@@ -398,6 +501,13 @@ def replay(ctx, body):
             loop.dispose()
         for r in res:
             print("FAILS (last message of the sequence):", r)
+        return 1 if res else 0
+    if "nested" in case:
+        _, res, _ = part_reentrant((own[0], own[1], len(case["nested"])))
+        import json
+        res = [r for r in res if json.dumps(r[3]["nested"]) == json.dumps(case["nested"])]
+        for r in res:
+            print("FAILS:", r[:3])
         return 1 if res else 0
     if "long" in case:
         _, res, _ = part_long((own[0], own[1]))
